@@ -3,6 +3,7 @@ package props
 import (
 	"fmt"
 	"math/big"
+	"sort"
 	"strings"
 	"time"
 
@@ -11,6 +12,7 @@ import (
 	"verifsim/harness"
 
 	"github.com/MixinNetwork/mixin/common"
+	"github.com/MixinNetwork/mixin/config"
 	"github.com/MixinNetwork/mixin/crypto"
 )
 
@@ -52,10 +54,16 @@ func (m *ledgerMon) node(n *cluster.SNode) (map[crypto.Hash]bool, map[crypto.Has
 	if m.final[n.Idx] == nil {
 		m.final[n.Idx] = map[crypto.Hash]bool{}
 		m.totals[n.Idx] = map[crypto.Hash]*big.Int{}
-		// genesis: XIN total as recorded
-		if _, bal, err := n.Store.ReadAssetWithBalance(common.XINAssetId); err == nil {
-			m.totals[n.Idx][common.XINAssetId] = units(bal)
+		// genesis allocations: what the genesis definition hands out (not what the store recorded)
+		alloc := new(big.Int)
+		if _, _, txs, err := m.r.c.Gns.BuildSnapshots(); err == nil {
+			for _, tx := range txs {
+				for _, o := range tx.Outputs {
+					alloc.Add(alloc, units(o.Amount))
+				}
+			}
 		}
+		m.totals[n.Idx][common.XINAssetId] = alloc
 	}
 	return m.final[n.Idx], m.totals[n.Idx]
 }
@@ -156,6 +164,9 @@ func (m *ledgerMon) AfterStore(n *cluster.SNode, call *cluster.StoreCall) {
 			touched[tx.Asset] = true
 		default:
 			for _, o := range tx.Outputs {
+				if o.Type == common.OutputTypeWithdrawalClaim {
+					m.r.out.Probes["withdrawal_claim_finalized"]++
+				}
 				if o.Type == common.OutputTypeWithdrawalSubmit {
 					totals[tx.Asset].Sub(totals[tx.Asset], units(o.Amount))
 					touched[tx.Asset] = true
@@ -252,9 +263,22 @@ func ledgerGen(prop string) func(rng *core.Rng, tier string) *harness.Plan {
 			dur = time.Duration(70+rng.IntN(90)) * time.Second
 		}
 		p.Params["dur_ms"] = int64(dur / time.Millisecond)
+		if prop == "C17" && rng.Chance(0.25) {
+			// the first start (genesis allocations are written then) of one node is cut and repeated
+			p.Params["nodes"] = int64(8 + rng.IntN(2))
+			p.Params["bootstop_k"] = int64(1 + rng.IntN(3))
+			p.Params["bootstop_node"] = int64(rng.IntN(9))
+		}
 		honestWorkload(rng, p, time.Second, dur, 8+rng.IntN(10), 5+rng.IntN(10))
 		for i := 0; i < 2+rng.IntN(4); i++ {
 			p.Ops = append(p.Ops, harness.Op{At: int64(rng.Dur(15*time.Second, dur) / time.Microsecond), Kind: "withdraw", S: fmt.Sprint("w", i), N: rng.IntN(9), A: int64(rng.IntN(1000))})
+		}
+		if prop == "C17" {
+			// custodian-signed claims of finalized withdrawal submissions (their fee output is never spendable
+			// and stays part of the supply)
+			for i := 0; i < 1+rng.IntN(3); i++ {
+				p.Ops = append(p.Ops, harness.Op{At: int64(rng.Dur(25*time.Second, dur) / time.Microsecond), Kind: "claim", S: fmt.Sprint("cl", i), N: rng.IntN(9), A: int64(rng.IntN(1000)), B: int64(rng.IntN(1000))})
+			}
 		}
 		for i := 0; i < rng.IntN(3); i++ {
 			p.Ops = append(p.Ops, harness.Op{At: int64(rng.Dur(15*time.Second, dur) / time.Microsecond), Kind: "doublespend", S: fmt.Sprint("x", i), N: rng.IntN(9), M: rng.IntN(9), A: int64(rng.IntN(1000))})
@@ -348,6 +372,69 @@ func ledgerExec(prop string) func(p *harness.Plan) *harness.Outcome {
 			r.coins[idx] = []*cluster.Coin{c.CoinOf(ver, 1, src.Owners, src.Threshold)}
 			r.submit(r.node(op.N), ver, true)
 			r.out.Probes["withdrawal_submitted"]++
+		}
+		r.extra["claim"] = func(op harness.Op, idx int) {
+			// a finalized submission
+			var subs []crypto.Hash
+			ks := make([]int, 0, len(r.txOf))
+			for k := range r.txOf {
+				ks = append(ks, k)
+			}
+			sort.Ints(ks)
+			for _, k := range ks {
+				tx := r.txOf[k]
+				if len(tx.Outputs) > 0 && tx.Outputs[0].Type == common.OutputTypeWithdrawalSubmit && c.FinalizedEverywhere(tx.PayloadHash()) {
+					subs = append(subs, tx.PayloadHash())
+				}
+			}
+			// a XIN output to pay the fee from
+			var src *cluster.Coin
+			fee := common.NewIntegerFromString(config.WithdrawalClaimFee)
+			cks := make([]int, 0, len(r.coins))
+			for k := range r.coins {
+				cks = append(cks, k)
+			}
+			sort.Ints(cks)
+			var cands []*cluster.Coin
+			for _, k := range cks {
+				for _, coin := range r.coins[k] {
+					if !coin.Spent && len(coin.Owners) > 0 && coin.Asset == common.XINAssetId && coin.Amount.Cmp(fee) > 0 && c.FinalizedEverywhere(coin.Tx) {
+						cands = append(cands, coin)
+					}
+				}
+			}
+			if len(subs) == 0 || len(cands) == 0 {
+				r.out.Probes["claim_not_possible_yet"]++
+				return
+			}
+			src = cands[int(op.A)%len(cands)]
+			src.Spent = true
+			tx := common.NewTransactionV5(common.XINAssetId)
+			tx.AddInput(src.Tx, src.Index)
+			tx.Outputs = append(tx.Outputs, &common.Output{Type: common.OutputTypeWithdrawalClaim, Amount: fee})
+			sh := crypto.Blake3Hash([]byte("claim-change" + op.S))
+			accounts := make([]*common.Address, len(src.Owners))
+			for i, u := range src.Owners {
+				accounts[i] = c.User(u)
+			}
+			tx.AddScriptOutput(accounts, common.NewThresholdScript(src.Threshold), src.Amount.Sub(fee), append(sh[:], sh[:]...))
+			tx.References = []crypto.Hash{subs[int(op.B)%len(subs)]}
+			data := []byte("external-transaction-of-" + op.S)
+			sig := c.Domain.PrivateSpendKey.Sign(crypto.Blake3Hash(data))
+			tx.Extra = append(sig[:], data...)
+			signed := &common.SignedTransaction{Transaction: *tx}
+			var signers []*common.Address
+			for _, u := range src.Owners[:int(src.Threshold)] {
+				signers = append(signers, c.User(u))
+			}
+			if err := signed.SignUTXO(src.UTXO, signers); err != nil {
+				return
+			}
+			ver := signed.AsVersioned()
+			r.txOf[idx] = ver
+			r.coins[idx] = []*cluster.Coin{c.CoinOf(ver, 1, src.Owners, src.Threshold)}
+			r.submit(r.node(op.N), ver, true)
+			r.out.Probes["withdrawal_claim_submitted"]++
 		}
 		r.extra["capdeposit"] = func(op harness.Op, idx int) {
 			asset := cluster.AssetBTC
